@@ -44,6 +44,9 @@ func main() {
 			for _, qs := range sc.Threads {
 				for _, q := range qs {
 					e, st, _ := scen.Build(sc.Lists, file)
+					if sc.ClosedBefore {
+						st.Close()
+					}
 					exp[q.String()] = e.Answer(q)
 					st.Close()
 				}
@@ -55,6 +58,9 @@ func main() {
 				}
 				for it := 0; it < n; it++ {
 					e, st, _ := scen.Build(sc.Lists, file)
+					if sc.ClosedBefore {
+						st.Close()
+					}
 					var wg sync.WaitGroup
 					var mu sync.Mutex
 					for m := 0; m < mult; m++ {
